@@ -126,6 +126,12 @@ func (l *lexer) Lex(lval *yySymType) int {
 			continue
 
 		default:
+			// goyacc numbers its named tokens from 57344 (U+E000), a rune in that range
+			// would be taken for a keyword, an identifier or a literal.
+			if token >= 0xE000 {
+				return yyLexErrorf(l, "unexpected character %q", text)
+			}
+
 			lval.yys = int(token)
 			lval.string = text
 
